@@ -43,7 +43,8 @@ class _TwoStep(ScriptConn):
 class UpgradeHarness:
     horizon = 4000
 
-    def __init__(self, variant, mode, data, status=None, prelude="none", reused=False):
+    def __init__(self, variant, mode, data, status=None, prelude="none", reused=False, interim=0):
+        self.interim = interim            # number of interim 1xx responses (103, then 100) the server sends before the switching response
         self.reused = reused              # the switch happens on a RE-USED keep-alive connection of a pool with keepalive_expiry; while the
                                           # caller holds the stream, time passes beyond that expiry and the pool serves another request
         self.prelude = prelude            # what the caller does with the (empty) response body before touching the stream: none | read | iter
@@ -57,6 +58,7 @@ class UpgradeHarness:
             head = b"HTTP/1.1 101 \r\nUpgrade: x\r\n\r\n"
         else:
             head = b"HTTP/1.1 %d OK\r\n\r\n" % self.status
+        head = b"".join([b"HTTP/1.1 103 Early Hints\r\nLink: </s>\r\n\r\n", b"HTTP/1.1 100 Continue\r\n\r\n"][:self.interim]) + head
         if self.reused:
             script = _TwoStep(b"HTTP/1.1 200 OK\r\nContent-Length: 7\r\n\r\n<first>", head + self.data)
         else:
@@ -255,6 +257,11 @@ def specs(tier):
         for mode in ("101", "connect"):
             for prelude in ("read", "iter"):
                 out.append(make_spec(MOD, "UpgradeHarness", variant=variant, mode=mode, data="abc" if tier == "quick" else "abcdef", prelude=prelude))
+        # interim 1xx responses before the switching response (the bytes after the FINAL head are the stream's)
+        for mode in ("101", "connect"):
+            for n in ((1,) if tier == "quick" else (1, 2)):
+                for d in (("abc",) if tier == "quick" else ("", "abc")):
+                    out.append(make_spec(MOD, "UpgradeHarness", variant=variant, mode=mode, data=d, interim=n))
         out.append(make_spec(MOD, "TunnelSegHarness", variant=variant, ct="tunnel"))
         if tier == "thorough":
             out.append(make_spec(MOD, "TunnelSegHarness", variant=variant, ct="tunnel-s"))
